@@ -179,6 +179,65 @@ func cmpInts(fn *ast.FuncDecl, lhs string, op token.Token) []int64 {
 	return out
 }
 
+// ifLessInts: N of every `if <ident> < N { … }` in fn whose body mentions one of the names (field / method names).
+func ifLessInts(fn *ast.FuncDecl, mentions ...string) []int64 {
+	var out []int64
+	ast.Inspect(fn, func(n ast.Node) bool {
+		is, ok := n.(*ast.IfStmt)
+		if !ok {
+			return true
+		}
+		b, ok := is.Cond.(*ast.BinaryExpr)
+		if !ok || b.Op != token.LSS {
+			return true
+		}
+		if _, isID := b.X.(*ast.Ident); !isID {
+			return true
+		}
+		v, ok := evalInt(b.Y)
+		if !ok {
+			return true
+		}
+		hit := false
+		ast.Inspect(is.Body, func(m ast.Node) bool {
+			if sel, ok := m.(*ast.SelectorExpr); ok {
+				for _, w := range mentions {
+					if sel.Sel.Name == w {
+						hit = true
+					}
+				}
+			}
+			return !hit
+		})
+		if hit {
+			out = append(out, v)
+		}
+		return true
+	})
+	return out
+}
+
+// lenFieldLess: N of every `len(<x>.field) < N` in fn.
+func lenFieldLess(fn *ast.FuncDecl, field string) []int64 {
+	var out []int64
+	ast.Inspect(fn, func(n ast.Node) bool {
+		if b, ok := n.(*ast.BinaryExpr); ok && b.Op == token.LSS {
+			if c, ok := b.X.(*ast.CallExpr); ok && isIdent(c.Fun, "len") && len(c.Args) == 1 {
+				if sel, ok := c.Args[0].(*ast.SelectorExpr); ok && sel.Sel.Name == field {
+					if v, ok := evalInt(b.Y); ok {
+						out = append(out, v)
+					}
+				}
+			}
+		}
+		return true
+	})
+	return out
+}
+
+// minLits: the literal second argument of every `min(x, N)` in fn.
+func minLits(fn *ast.FuncDecl, callee string) []int64 { return callArgInts(fn, callee, 1, "") }
+
 // callArgInts: integer literal at argument idx of every call `callee(...)` in fn whose other argument
 // (if otherSrc != "") reads otherSrc.
 func callArgInts(fn *ast.FuncDecl, callee string, idx int, otherSrc string) []int64 {
@@ -376,79 +435,171 @@ func genConsts() string {
 	compiler := ps.get("router/compiler")
 	version := ps.get("router/version")
 
-	// ---- router: parameter slots
+	// ---- router: parameter slots (found by structure, not by the names of locals)
 	slots := []int64{router.fieldArrayLen("Context", "paramKeys"), router.fieldArrayLen("Context", "paramValues")}
-	slots = append(slots, cmpInts(router.fn("node", "getRoute"), "paramIdx", token.LSS)...)
-	slots = append(slots, cmpInts(router.fn("Context", "SetParam"), "index", token.LSS)...)
-	slots = append(slots, callArgInts(router.fn("Context", "reset"), "min", 1, "c.paramCount")...)
+	n0 := len(slots)
+	slots = append(slots, ifLessInts(router.fn("node", "getRoute"), "paramKeys", "paramValues")...)
+	if len(slots)-n0 != 2 {
+		fatalf(token.NoPos, "consts: expected two `if i < N { …paramKeys[i]… }` in (*node).getRoute, found %d", len(slots)-n0)
+	}
+	n0 = len(slots)
+	slots = append(slots, ifLessInts(router.fn("Context", "SetParam"), "paramKeys", "paramValues")...)
+	slots = append(slots, minLits(router.fn("Context", "reset"), "min")...)
 	mae := compiler.fn("CompiledRoute", "matchAndExtract")
-	slots = append(slots, cmpInts(mae, "i", token.LSS)...)
-	slots = append(slots, callArgInts(mae, "min", 1, "paramCount")...)
-	if len(slots) < 7 {
-		fatalf(token.NoPos, "consts: expected at least 7 occurrences of the inline slot count, found %d", len(slots))
+	slots = append(slots, ifLessInts(mae, "SetParam")...)
+	slots = append(slots, minLits(mae, "min")...)
+	if len(slots)-n0 != 4 {
+		fatalf(token.NoPos, "consts: expected the inline slot count once each in SetParam, reset, and twice in matchAndExtract, found %d", len(slots)-n0)
 	}
 	o.nat("router_inlineSlots", agree("the number of inline parameter slots", slots),
-		"len(Context.paramKeys/paramValues), `paramIdx < N` in (*node).getRoute, `index < N` in SetParam, `min(c.paramCount, N)` in reset, `i < N` and `min(paramCount, N)` in matchAndExtract")
+		"len(Context.paramKeys/paramValues), `i < N` guarding the slot writes in (*node).getRoute, SetParam and matchAndExtract, `min(_, N)` in reset and matchAndExtract")
 
 	// ---- route compiler
 	o.nat("compiler_minRoutesForIndexing", compiler.constInt("minRoutesForIndexing", nil), "router/compiler: const minRoutesForIndexing")
-	o.nat("compiler_staticDirectThreshold", agree("len(rc.staticRoutes) < N", cmpInts(compiler.fn("RouteCompiler", "LookupStatic"), "len(rc.staticRoutes)", token.LSS)),
+	o.nat("compiler_staticDirectThreshold", agree("len(_.staticRoutes) < N", lenFieldLess(compiler.fn("RouteCompiler", "LookupStatic"), "staticRoutes")),
 		"`len(rc.staticRoutes) < N` in LookupStatic: below it the bloom filter is skipped")
-	tbl := append(cmpInts(router.fn("CompiledRouteTable", "getRoute"), "len(table.routes)", token.LSS),
-		cmpInts(router.fn("CompiledRouteTable", "getRouteWithPath"), "len(table.routes)", token.LSS)...)
+	tbl := append(lenFieldLess(router.fn("CompiledRouteTable", "getRoute"), "routes"), lenFieldLess(router.fn("CompiledRouteTable", "getRouteWithPath"), "routes")...)
 	if len(tbl) != 2 {
 		fatalf(token.NoPos, "consts: expected `len(table.routes) < N` once in getRoute and once in getRouteWithPath")
 	}
 	o.nat("router_tableDirectThreshold", agree("len(table.routes) < N", tbl), "`len(table.routes) < N` in (*CompiledRouteTable).getRoute and getRouteWithPath")
-	segs := append([]int64{localArrayLen(mae, "segments")}, cmpInts(mae, "segCount", token.LSS)...)
-	if len(segs) < 2 {
-		fatalf(token.NoPos, "consts: `segCount < N` not found in matchAndExtract")
+	// the unique fixed-size local array of matchAndExtract and the literal bound of the loop that fills it
+	var arrs []int64
+	ast.Inspect(mae, func(n ast.Node) bool {
+		if vs, ok := n.(*ast.ValueSpec); ok && vs.Type != nil {
+			if at, ok := vs.Type.(*ast.ArrayType); ok && at.Len != nil {
+				if v, ok := evalInt(at.Len); ok {
+					arrs = append(arrs, v)
+				}
+			}
+		}
+		return true
+	})
+	if len(arrs) != 1 {
+		fatalf(mae.Pos(), "consts: expected exactly one fixed-size local array in matchAndExtract")
 	}
-	o.nat("compiler_maxSegments", agree("the segment buffer size", segs), "`var segments [N]string` and `segCount < N` in matchAndExtract")
+	segs := arrs
+	ast.Inspect(mae, func(n ast.Node) bool {
+		if fs, ok := n.(*ast.ForStmt); ok && fs.Cond != nil {
+			ast.Inspect(fs.Cond, func(m ast.Node) bool {
+				if b, ok := m.(*ast.BinaryExpr); ok && b.Op == token.LSS {
+					if v, ok := evalInt(b.Y); ok {
+						segs = append(segs, v)
+					}
+				}
+				return true
+			})
+		}
+		return true
+	})
+	if len(segs) < 2 {
+		fatalf(token.NoPos, "consts: literal loop bound of the segment buffer not found in matchAndExtract")
+	}
+	o.nat("compiler_maxSegments", agree("the segment buffer size", segs), "the `[N]string` segment buffer and the literal bound of the loop that fills it in matchAndExtract")
 	o.nat("router_defaultBloomFilterSize", router.constInt("defaultBloomFilterSize", nil), "router: const defaultBloomFilterSize")
 	o.nat("router_defaultBloomHashFunctions", router.constInt("defaultBloomHashFunctions", nil), "router: const defaultBloomHashFunctions")
 	ob := router.fn("", "optimalBloomFilterSize")
-	var factor []int64
+	var factor, lows, highs, rets []int64
 	ast.Inspect(ob, func(n ast.Node) bool {
-		if b, ok := n.(*ast.BinaryExpr); ok && b.Op == token.MUL && src(b.X) == "routeCount" {
-			if v, ok := evalInt(b.Y); ok {
-				factor = append(factor, v)
+		switch v := n.(type) {
+		case *ast.BinaryExpr:
+			if x, ok := evalInt(v.Y); ok {
+				switch v.Op {
+				case token.MUL:
+					factor = append(factor, x)
+				case token.LSS:
+					lows = append(lows, x)
+				case token.GTR:
+					highs = append(highs, x)
+				}
+			}
+		case *ast.ReturnStmt:
+			if len(v.Results) == 1 {
+				if x, ok := evalInt(v.Results[0]); ok {
+					rets = append(rets, x)
+				}
 			}
 		}
 		return true
 	})
-	o.nat("router_bloomBitsPerRoute", agree("routeCount * N", factor), "`routeCount * N` in optimalBloomFilterSize")
-	lo, hi := agree("size < N", cmpInts(ob, "size", token.LSS)), agree("size > N", cmpInts(ob, "size", token.GTR))
-	var rets []int64
-	ast.Inspect(ob, func(n ast.Node) bool {
-		if r, ok := n.(*ast.ReturnStmt); ok && len(r.Results) == 1 {
-			if v, ok := evalInt(r.Results[0]); ok {
-				rets = append(rets, v)
-			}
-		}
-		return true
-	})
-	if len(rets) != 2 || rets[0] != lo || rets[1] != hi {
-		fatalf(ob.Pos(), "consts: optimalBloomFilterSize does not clamp to the bounds it tests (%d, %d vs returns %v)", lo, hi, rets)
+	if len(factor) != 1 || len(lows) != 1 || len(highs) != 1 || len(rets) != 2 || rets[0] != lows[0] || rets[1] != highs[0] {
+		fatalf(ob.Pos(), "consts: optimalBloomFilterSize is not `x*N; if x < LO {return LO}; if x > HI {return HI}` any more (%v %v %v %v)", factor, lows, highs, rets)
 	}
-	o.nat("router_bloomMinSize", lo, "lower clamp of optimalBloomFilterSize")
-	o.nat("router_bloomMaxSize", hi, "upper clamp of optimalBloomFilterSize")
-	o.nat("router_tableBloomMinSize", agree("max(bloomFilterSize, N)", callArgInts(router.fn("node", "compileStaticRoutes"), "max", 1, "bloomFilterSize")),
+	o.nat("router_bloomBitsPerRoute", factor[0], "`routeCount * N` in optimalBloomFilterSize")
+	o.nat("router_bloomMinSize", lows[0], "lower clamp of optimalBloomFilterSize")
+	o.nat("router_bloomMaxSize", highs[0], "upper clamp of optimalBloomFilterSize")
+	o.nat("router_tableBloomMinSize", agree("max(_, N)", minLits(router.fn("node", "compileStaticRoutes"), "max")),
 		"`max(bloomFilterSize, N)` in (*node).compileStaticRoutes")
 
 	// ---- router: methods probed for 405, default wildcard name, sentinels
-	o.strs("router_standardMethods", localStringList(router.fn("Router", "getAllowedMethodsForPath"), "standardMethods"), "`standardMethods` in getAllowedMethodsForPath, in probe order")
-	addRoute, getRoute := router.fn("node", "addRouteWithConstraints"), router.fn("node", "getRoute")
-	wn := assignedStrings([]ast.Node{addRoute, getRoute}, "paramName")
+	var methodLists [][]string
+	ast.Inspect(router.fn("Router", "getAllowedMethodsForPath"), func(n ast.Node) bool {
+		if cl, ok := n.(*ast.CompositeLit); ok {
+			if at, ok := cl.Type.(*ast.ArrayType); ok && at.Len == nil && isIdent(at.Elt, "string") {
+				methodLists = append(methodLists, stringElems(cl))
+			}
+		}
+		return true
+	})
+	if len(methodLists) != 1 {
+		fatalf(token.NoPos, "consts: expected exactly one []string literal (the probed methods) in getAllowedMethodsForPath")
+	}
+	o.strs("router_standardMethods", methodLists[0], "the []string literal of getAllowedMethodsForPath, in probe order")
+	// default wildcard parameter name: `if x == "" { x = "…" }` in getRoute, and the literal bound to the identifier that
+	// fills the `paramName:` field of the wildcard literal in addRouteWithConstraints
+	var wn []string
+	ast.Inspect(router.fn("node", "getRoute"), func(n ast.Node) bool {
+		if is, ok := n.(*ast.IfStmt); ok && len(is.Body.List) == 1 {
+			if b, ok := is.Cond.(*ast.BinaryExpr); ok && b.Op == token.EQL {
+				if e, ok := strLit(b.Y); ok && e == "" {
+					if as, ok := is.Body.List[0].(*ast.AssignStmt); ok && len(as.Lhs) == 1 && len(as.Rhs) == 1 && src(as.Lhs[0]) == src(b.X) {
+						if v, ok := strLit(as.Rhs[0]); ok {
+							wn = append(wn, v)
+						}
+					}
+				}
+			}
+		}
+		return true
+	})
+	addRoute := router.fn("node", "addRouteWithConstraints")
+	var fillers []string
+	ast.Inspect(addRoute, func(n ast.Node) bool {
+		if kv, ok := n.(*ast.KeyValueExpr); ok && isIdent(kv.Key, "paramName") {
+			if v, ok := strLit(kv.Value); ok {
+				wn = append(wn, v)
+			} else if id, ok := kv.Value.(*ast.Ident); ok {
+				fillers = append(fillers, id.Name)
+			}
+		}
+		return true
+	})
+	for _, f := range fillers {
+		wn = append(wn, assignedStrings([]ast.Node{addRoute}, f)...)
+	}
 	if len(wn) < 2 {
 		fatalf(token.NoPos, "consts: default wildcard parameter name expected in addRouteWithConstraints and getRoute")
 	}
-	o.str("router_wildcardParam", sameStrings("the default wildcard parameter name", wn), "`paramName = \"…\"` in addRouteWithConstraints and getRoute")
+	o.str("router_wildcardParam", sameStrings("the default wildcard parameter name", wn), "default of the wildcard's paramName in addRouteWithConstraints and getRoute")
 	var serveFns []ast.Node
 	for _, n := range []string{"ServeHTTP", "serveVersionedRequest", "handleNotFound", "handleMethodNotAllowed"} {
 		serveFns = append(serveFns, router.fn("Router", n))
 	}
-	pats := assignedStrings(serveFns, "c.routePattern")
+	var pats []string
+	for _, nd := range serveFns {
+		ast.Inspect(nd, func(n ast.Node) bool {
+			if as, ok := n.(*ast.AssignStmt); ok {
+				for i, l := range as.Lhs {
+					if sel, ok := l.(*ast.SelectorExpr); ok && sel.Sel.Name == "routePattern" && i < len(as.Rhs) {
+						if v, ok := strLit(as.Rhs[i]); ok {
+							pats = append(pats, v)
+						}
+					}
+				}
+			}
+			return true
+		})
+	}
 	set := map[string]bool{}
 	for _, s := range pats {
 		set[s] = true
@@ -529,7 +680,10 @@ func genConsts() string {
 	mj := errs.fn("ProblemDetail", "MarshalJSON")
 	var reserved []string
 	ast.Inspect(mj, func(n ast.Node) bool {
-		if b, ok := n.(*ast.BinaryExpr); ok && b.Op == token.NEQ && isIdent(b.X, "k") {
+		if b, ok := n.(*ast.BinaryExpr); ok && b.Op == token.NEQ {
+			if _, isID := b.X.(*ast.Ident); !isID {
+				return true
+			}
 			if s, ok := strLit(b.Y); ok {
 				reserved = append(reserved, s)
 			}
@@ -546,7 +700,7 @@ func genConsts() string {
 			}
 		case *ast.AssignStmt:
 			for _, l := range v.Lhs {
-				if ix, ok := l.(*ast.IndexExpr); ok && isIdent(ix.X, "m") {
+				if ix, ok := l.(*ast.IndexExpr); ok {
 					if s, ok := strLit(ix.Index); ok {
 						written = append(written, s)
 					}
@@ -595,7 +749,21 @@ func genConsts() string {
 	o.nat("compression_sniffLen", ps.get("middleware/compression").constInt("sniffLen", nil), "middleware/compression: const sniffLen")
 	o.nat("bodylimit_maxEmptyReads", ps.get("middleware/bodylimit").constInt("maxEmptyReads", nil), "middleware/bodylimit: const maxEmptyReads")
 	ba := ps.get("middleware/basicauth")
-	o.str("basicauth_prefix", ba.constStr("prefix", ba.fn("", "New")), "local const prefix in basicauth.New")
+	baNew := ba.fn("", "New")
+	var pref []string
+	ast.Inspect(baNew, func(n ast.Node) bool {
+		if c, ok := n.(*ast.CallExpr); ok {
+			if name, _ := calleeName(c); name == "HasPrefix" && len(c.Args) == 2 {
+				if v, ok := strLit(c.Args[1]); ok {
+					pref = append(pref, v)
+				} else if id, ok := c.Args[1].(*ast.Ident); ok {
+					pref = append(pref, ba.constStr(id.Name, baNew))
+				}
+			}
+		}
+		return true
+	})
+	o.str("basicauth_prefix", sameStrings("the Authorization scheme prefix", pref), "what strings.HasPrefix tests the Authorization header against in basicauth.New")
 
 	// ---- openapi: response-code pattern and the component-name character class
 	validate := ps.get("openapi/validate")
